@@ -704,12 +704,64 @@ def reinterpretation_resets(P, R, rule='C16.MPT.3'):
     R.floor(rule, 1, 'assignments of a string node\'s subtype')
 
 
+def newline_contract(P, R, rule='C16.LOOK.4'):
+    """The skipper either hands a newline back to its caller or skips it, depending on its flag argument.  A caller that
+    gets newlines must treat them (it compares what it got with a newline before asking again); a caller that does not
+    expect them asks for them to be skipped.  Checked per call: the constant passed selects "newlines are returned"
+    exactly when the result is compared with a newline - so a change of the flag's meaning cannot leave one caller
+    behind."""
+    ws = P.need_fn('conf_parse_whitespace')
+    if len(ws.params) < 2:
+        raise AnalysisBroken('the skipper no longer takes a flag')
+    flag = ws.params[1]
+    # value of the flag under which a newline is returned
+    ret_when = None
+    for t in ws.sites():
+        if t.ev['k'] != 'ret':
+            continue
+        gs = ws.guards(t.bid)
+        if any(const_of(g[2]) == 10 and g[1] == '==' for g in gs):
+            for g in gs:
+                if is_var(g[0], flag) and const_of(g[2]) == 0:
+                    ret_when = 'nonzero' if g[1] == '!=' else 'zero'
+    if ret_when is None:
+        raise AnalysisBroken('cannot tell under which flag value the skipper returns a newline')
+    n = 0
+    for f in P.unit_fns(ws.unit):
+        calls = [c for c in f.calls('conf_parse_whitespace')]
+        for c in calls:
+            k = const_of(c.ev['args'][1]) if len(c.ev['args']) > 1 else None
+            if not isinstance(k, int):
+                continue
+            gets_newlines = (k != 0) == (ret_when == 'nonzero')
+            # the variable that receives the result
+            rv = None
+            for t in f.stores():
+                if (t.ev.get('rhs') or {}).get('ev') == c.ev.get('id') and is_var(t.ev.get('lhs')):
+                    rv = t.ev['lhs']['name']
+            handles = False
+            if rv:
+                others = [x.bid for x in f.stores() if is_var(x.ev.get('lhs'), rv) and x.key != c.key and (x.ev.get('rhs') or {}).get('ev') != c.ev.get('id')]
+                region = f.reach([c.bid], cut_blocks=[b for b in others if b != c.bid])
+                for b in region:
+                    for e in f.out[b]:
+                        r = e.rel() if e.cond is not None and e.label not in ('case', 'default') else None
+                        if r and is_var(r[0], rv) and const_of(r[2]) == 10:
+                            handles = True
+                        if e.label == 'case' and e.cond is not None and is_var(e.cond, rv) and 10 in (e.vs or []):
+                            handles = True
+            n += 1
+            R.ob(rule, gets_newlines == handles, c, 'in %s the skipper is asked %s newlines and the caller %s' % (f.name, 'to return' if gets_newlines else 'to skip', 'compares the result with a newline' if handles else 'never looks for one'), key='newline-contract:%s' % f.name)
+    R.floor(rule, 5, 'calls of the skipper')
+
+
 def run(P, R, tier):
     reader_contract(P, R)
     token_alphabet(P, R)
     keyword_tables(P, R)
     keyword_chains(P, R)
     newline_accounting(P, R)
+    newline_contract(P, R)
     f, before, reads, unreads = lookahead(P, R)
     follow(P, R, f, before, reads)
     escapes(P, R)
